@@ -24,6 +24,10 @@ type Prop struct {
 	Builds []string
 	// Shards overrides the number of child processes per build (0 = 16).
 	Shards int
+	// Parallel > 1 judges the cases of a shard on that many goroutines at once. Only for
+	// properties whose library functions are stateless / documented safe for concurrent use:
+	// shared scratch state, caches or pools inside the library then show up as wrong verdicts.
+	Parallel int
 	// SelfTest validates the oracle against published vectors. A failure
 	// aborts the run as "broken oracle" (exit 2), never as a violation.
 	SelfTest func() error
@@ -156,6 +160,12 @@ type Gen struct {
 	prop *Prop
 	st   *shardStats
 	slot *slot
+	work chan caseItem
+}
+
+type caseItem struct {
+	class string
+	key   []byte
 }
 
 // Quick reports whether this is the quick tier.
@@ -196,11 +206,19 @@ func (g *Gen) Bytes(n int) []byte {
 	return b
 }
 
-// Emit judges one case.
+// Emit judges one case (or hands it to the judging goroutines in parallel mode).
 func (g *Gen) Emit(class string, key []byte) {
-	g.slot.begin(class, key)
+	if g.work != nil {
+		g.work <- caseItem{class, append([]byte(nil), key...)}
+		return
+	}
+	g.run(0, class, key)
+}
+
+func (g *Gen) run(worker int, class string, key []byte) {
+	g.slot.begin(worker, class, key)
 	o := g.judge(class, key)
-	g.slot.end()
+	g.slot.end(worker)
 	g.st.record(g.prop, class, key, o)
 }
 
